@@ -8,6 +8,7 @@ import Dawgs.Generated.C11
     types
     parse-error
     case <scripts> nilish=<0|1> <V>
+    tree <scripts> <T>                (suite c11pg: the branch tree is given, T ::= (N "<type>" T…))
 
 `<V>` is the harness's rendering of the real query-model value (see harness/c11.go). The driver converts it to a
 `Val` of Model/C11 (checking type names and field names against the extracted schema), runs the model `copy`
@@ -126,7 +127,7 @@ def parseScript (s : String) : Option Script :=
   | [m, k, a] => do
     let k ← k.toNat?
     let a ← parseAct a
-    if m == "st" then some ⟨s, true, k, a⟩ else if m == "se" then some ⟨s, false, k, a⟩ else none
+    if m == "st" || m == "pg" then some ⟨s, true, k, a⟩ else if m == "se" then some ⟨s, false, k, a⟩ else none
   | _ => none
 
 def evStr : Ev Lbl → String
@@ -144,6 +145,13 @@ def runScript (ts tse : Tree Lbl) (sc : Script) : String :=
   let st := generic (scripted sc.k sc.act) (if sc.structural then ts else tse)
   let log := if st.log.isEmpty then "-" else ",".intercalate (st.log.map evStr)
   s!"W {sc.text} {resStr st.ret} {log}"
+
+/-- a branch tree given explicitly (suite c11pg): `(N "<type>" child…)` -/
+partial def toTree : Sexp → Option (Tree Lbl)
+  | .list (.atom "N" :: .str n :: kids) => do
+    let ks ← kids.mapM toTree
+    pure (.node ⟨[], n⟩ ks)
+  | _ => none
 
 def copyPart (nilish : Bool) (v : Val) (next : Nat) : String :=
   if nilish then "equal=- shared=[]"
@@ -172,10 +180,15 @@ def step (_ : Unit) (ts : List String) : Unit × String :=
           let tse := treeOf T T.semantic v
           let walks := scs.map (runScript tst tse)
           ((), "ok " ++ copyPart (nil == "nilish=1") v next ++ " | " ++ " | ".intercalate walks)
+    | some [.atom "tree", .atom scripts, sx] =>
+      match toTree sx, (scripts.splitOn ",").mapM parseScript with
+      | some t, some scs => ((), "ok | " ++ " | ".intercalate (scs.map (runScript t t)))
+      | _, _ => ((), "bad-op")
+    | some [.atom other] => ((), other)      -- parse-error / xlate-error / walk0-… are passed through
     | _ => ((), "bad-op")
   | _ => ((), "bad-op")
 
 def suite : Suite := { σ := Unit, init := (), step := step, raw := true }
 end Driver.C11
 
-def Driver.C11.suites : List (String × Driver.Suite) := [("c11", Driver.C11.suite)]
+def Driver.C11.suites : List (String × Driver.Suite) := [("c11", Driver.C11.suite), ("c11pg", Driver.C11.suite)]
